@@ -82,6 +82,7 @@ template <class Trie>
 
     std::uint32_t type_id;
     ifs.read(reinterpret_cast<char*>(&type_id), sizeof(type_id));
+    XCDAT_THROW_IF(ifs.fail(), "Failed to read the input file (truncated?)");
     return type_id;
 }
 
